@@ -19,12 +19,8 @@ from typing import (
 )
 
 from confectioner import mix
-from confectioner.templating import (
-    dotted_key_exists,
-    get_dotted_key,
-    resolve,
-    set_dotted_key,
-)
+from confectioner.templating import get_dotted_key as _get_dotted_key
+from confectioner.templating import resolve, set_dotted_key
 
 from ._missing import MISSING, MaybeMissing
 from .application import FunctionApplication
@@ -37,6 +33,25 @@ A = TypeVar("A", covariant=True, bound="JSON")
 B = TypeVar("B", covariant=True)
 _Domain = Union[Container[A], Callable[[A], bool]]
 Domain = Evaluatable[_Domain]
+
+
+def get_dotted_key(dotted: str, options: Any) -> Any:
+    """Get a nested value using a dotted key; a key below a value that is neither
+    a section nor a list does not exist (KeyError)."""
+    key, _, rest = dotted.partition(".")
+    if not isinstance(options, (Mapping, list)):
+        raise KeyError(dotted)
+    value = _get_dotted_key(key, options)
+    return get_dotted_key(rest, value) if rest else value
+
+
+def dotted_key_exists(dotted: str, options: Any) -> bool:
+    """Check if a dotted key exists in a dictionary or list."""
+    try:
+        get_dotted_key(dotted, options)
+    except KeyError:
+        return False
+    return True
 
 
 def _templated_strings(value: JSON) -> Iterator[str]:
